@@ -12,10 +12,16 @@ HERE = os.path.dirname(os.path.dirname(os.path.abspath(__file__)))
 
 
 def main():
-    only = sys.argv[1:]
+    only = [a for a in sys.argv[1:] if a != '--missing']
+    missing_only = '--missing' in sys.argv[1:]        # audit only the patches that have no row yet (all other rows are kept)
     rows = []
     path = os.path.join(HERE, 'mutants', 'AUDIT.md')
-    if only and os.path.exists(path):
+    if missing_only and os.path.exists(path):
+        for ln in open(path):
+            m = re.match(r'\| (C\d\d) \| (\S+) \| (\S+) \| (\S+) \| `(.*)` \|', ln)
+            if m and os.path.exists(os.path.join(HERE, 'mutants', m.group(1), m.group(2) + '.patch')):
+                rows.append(m.groups())
+    elif only and os.path.exists(path):
         # partial re-run: keep the rows of the properties that are not re-audited
         for ln in open(path):
             m = re.match(r'\| (C\d\d) \| (\S+) \| (\S+) \| (\S+) \| `(.*)` \|', ln)
@@ -26,6 +32,8 @@ def main():
         if only and pid not in only:
             continue
         for patch in sorted(glob.glob(os.path.join(d, '*.patch'))):
+            if missing_only and any(r[0] == pid and r[1] == os.path.basename(patch)[:-6] for r in rows):
+                continue
             t0 = time.time()
             env = dict(os.environ, MUT_ARGS='--no-shrink')
             p = subprocess.run([os.path.join(HERE, 'tools', 'mutate.sh'), pid, patch], capture_output=True, text=True, env=env)
